@@ -39,7 +39,7 @@ contract(
         # raises exactly when a limit is configured and the product of the lengths of all active
         # loops, this loop and the iterations carried in from the calling context exceeds it
         "LoopIterationLimitError":
-            "self.env.loop_iteration_limit is not None and self.env.loop_iteration_limit != 0 and "
+            "self.env.loop_iteration_limit is not None and "
             "Product(self.loops) * length * self.loop_iteration_carry > self.env.loop_iteration_limit",
     },
 )
@@ -55,7 +55,7 @@ contract(
     enter=[
         "self.loop_iteration_carry == old(self.loop_iteration_carry) * length",
         "self.loops == old(self.loops)",
-        "implies(self.env.loop_iteration_limit is not None and self.env.loop_iteration_limit != 0, "
+        "implies(self.env.loop_iteration_limit is not None, "
         "Product(self.loops) * length * old(self.loop_iteration_carry) <= self.env.loop_iteration_limit)",
     ],
     # ... and whatever way the body is left, the carry is what it was
@@ -78,7 +78,7 @@ contract(
         "len(self.scope._maps) == len(old(self.scope._maps)) + 1",
         "self.scope._maps[0] == namespace",
         "self.scope._maps[1:] == old(self.scope._maps)",
-        "implies(self.env.loop_iteration_limit is not None and self.env.loop_iteration_limit != 0, "
+        "implies(self.env.loop_iteration_limit is not None, "
         "Product(old(self.loops)) * forloop.length * self.loop_iteration_carry <= self.env.loop_iteration_limit)",
     ],
     # whatever way the body is left, the loop stack and scope stack are restored
@@ -139,7 +139,7 @@ contract(
     post=[
         "self.locals[key] == val",
         # local namespace limit: a successful assign leaves the score within the limit
-        "implies(self.env.local_namespace_limit is not None and self.env.local_namespace_limit != 0, "
+        "implies(self.env.local_namespace_limit is not None, "
         "self.get_size_of_locals() <= self.env.local_namespace_limit)",
         "self.counters == old(self.counters)", "self.globals is old(self.globals)",
     ],
